@@ -432,6 +432,10 @@ COUNTERS = {
 }
 
 
+# counters that are a per-graph (not per-task) tally: counted only inside the block that reports the graph's completion
+COUNTER_WITHIN = {"_missed_task_graph_deadlines": "TASK_GRAPH_FINISHED"}
+
+
 def r4_counters(ctx: Context) -> None:
     ctx.rule("C08.R4", "each run counter has exactly one `+= 1` site, in the handler that writes the matching row "
                        "and under the same guard; counters start at 0")
@@ -472,6 +476,19 @@ def r4_counters(ctx: Context) -> None:
                 ctx.check(same, "C08.R4", key + f"|counted exactly when the {row_tag} row is written", loc(inc),
                           "same controlling branches", f"{counter} and the {row_tag} row are controlled by different conditions: "
                           f"{_controlling(g, incn)} vs {_controlling(g, rn)}")
+        if counter in COUNTER_WITHIN:
+            tag = COUNTER_WITHIN[counter]
+            rws = [r for r in rows if r.tag == tag and r.func is h]
+            if not rws:
+                ctx.violation("C08.R4", key + f"|{tag} row in the same handler", loc(inc), f"no {tag} row in the handler")
+            else:
+                need = set(_controlling(g, g.node_of(rws[0].call)))
+                have = set(_controlling(g, incn))
+                ctx.check(need <= have, "C08.R4", key + f"|counted once per graph, where the {tag} row is written", loc(inc),
+                          "controlled by the graph-completion branch",
+                          f"{counter} is a per-graph tally but is incremented outside the branch that reports the graph's "
+                          f"completion (missing controlling decisions: {sorted(need - have)}): it is counted once per late task, "
+                          "so SIMULATOR_END reports more late graphs than there are (the CSV reader's own assertion fails)")
         if guard_src:
             want = lin.formula(ast.parse(guard_src, mode="eval").body)
             ctl = _controlling_tests(g, incn)
@@ -694,9 +711,9 @@ def r7_census(ctx: Context) -> None:
 
 
 def run(ctx: Context) -> None:
-    r1_r2_schema(ctx)
-    r3_keywords(ctx)
-    r4_counters(ctx)
-    r5_scheduler_row(ctx)
-    r6_miss_iff_late(ctx)
-    r7_census(ctx)
+    ctx.isolate(r1_r2_schema)
+    ctx.isolate(r3_keywords)
+    ctx.isolate(r4_counters)
+    ctx.isolate(r5_scheduler_row)
+    ctx.isolate(r6_miss_iff_late)
+    ctx.isolate(r7_census)
